@@ -1008,6 +1008,11 @@ def load_func_for_dataclass(
     else:
         is_main_class = False
 
+        # the name under which the function for this (nested) dataclass is
+        # referenced; differs from the default when two nested dataclasses
+        # share a `__name__`.
+        fn_name = extras['recursion_guard'].get(cls, fn_name)
+
         # config for nested dataclasses
         config = extras['config']
 
